@@ -29,6 +29,7 @@ use vcore::{Args, Check, Report, catch, mix, pick_index};
 
 pub const KEY_MSD_CSD: &str = "hash-collision:signed-entity-discriminant:MSD/CSD";
 pub const KEY_CTX_CDB: &str = "hash-collision:signed-entity-discriminant:CTx/CDb";
+pub const KEY_PHI: &str = "roundtrip:phi_f-not-preserved";
 
 // ------------------------------------------------------------------------------------------------------------------
 // value generators
@@ -161,10 +162,12 @@ fn parts_strategy(pool: Arc<Strings>) -> impl Strategy<Value = Vec<(u8, String)>
     per_key.prop_map(|v| v.into_iter().flatten().collect())
 }
 
-fn avk_strategy(pool: Arc<Strings>) -> impl Strategy<Value = String> {
+/// `verifiable`: the key may reach the STM verification, whose cost explodes (and which divides by zero) when the
+/// total stake is below the stake of a registered party: keep the synthetic total stake above every pool stake
+fn avk_strategy(pool: Arc<Strings>, verifiable: bool) -> impl Strategy<Value = String> {
     prop_oneof![
         2 => prop::sample::select(pool.avks.clone()),
-        1 => (any::<u64>(), u64_interesting(), u64_interesting()).prop_map(|(r, n, t)| synthetic_avk(r, n, t)),
+        1 => (any::<u64>(), u64_interesting(), u64_interesting()).prop_map(move |(r, n, t)| synthetic_avk(r, n, if verifiable { t.max(1_000_000) } else { t })),
     ]
 }
 
@@ -179,14 +182,14 @@ fn sig_strategy(pool: Arc<Strings>) -> impl Strategy<Value = SigSpec> {
     ]
 }
 
-fn cert_spec_strategy(pool: Arc<Strings>) -> impl Strategy<Value = CertSpec> {
+fn cert_spec_strategy(pool: Arc<Strings>, verifiable: bool) -> impl Strategy<Value = CertSpec> {
     (
         (hashlike(), hashlike(), u64_interesting(), small_string(), small_string()),
         (u64_interesting(), u64_interesting(), phi_strategy(), ts_strategy(), ts_strategy()),
         prop::collection::vec(party_strategy(), 0..=6),
         parts_strategy(pool.clone()),
         prop_oneof![3 => Just(None), 1 => any::<u64>().prop_map(|s| Some(hex_digest(s))), 1 => small_string().prop_map(Some)],
-        avk_strategy(pool.clone()),
+        avk_strategy(pool.clone(), verifiable),
         sig_strategy(pool),
     )
         .prop_map(|((hash, previous_hash, epoch, network, version), (k, m, phi_bits, initiated_ns, sealed_ns), signers, parts, signed_message, avk, sig)| CertSpec {
@@ -299,7 +302,7 @@ fn ts_edit() -> impl Strategy<Value = TsEdit> {
     ]
 }
 
-fn change_strategy(pool: Arc<Strings>) -> impl Strategy<Value = Change> {
+fn change_strategy(pool: Arc<Strings>, verifiable: bool) -> impl Strategy<Value = Change> {
     let p = pool.clone();
     let arms: Vec<(u32, BoxedStrategy<Change>)> = vec![
         (1, str_edit().prop_map(Change::PreviousHash).boxed()),
@@ -330,7 +333,7 @@ fn change_strategy(pool: Arc<Strings>) -> impl Strategy<Value = Change> {
         (1, any::<u16>().prop_map(|at| Change::PartRemove { at }).boxed()),
         (1, (any::<u16>(), 0u8..ALL_KEYS.len() as u8).prop_map(|(at, key)| Change::PartRekey { at, key }).boxed()),
         (1, str_edit().prop_map(Change::SignedMessage).boxed()),
-        (1, avk_strategy(pool.clone()).prop_map(Change::Avk).boxed()),
+        (1, avk_strategy(pool.clone(), verifiable).prop_map(Change::Avk).boxed()),
         (
             3,
             prop_oneof![
@@ -686,13 +689,13 @@ fn msg_case_strategy(pool: Arc<Strings>) -> impl Strategy<Value = MsgCase> {
     (
         parts_strategy(pool),
         prop_oneof![
-            4 => (any::<u16>(), prop_oneof![Just(2u8), Just(4u8), 1u8..10, Just(64u8)], any::<bool>()).prop_map(|(at, n, forward)| Move::Boundary { at, n, forward }),
+            4 => (any::<u16>(), prop_oneof![3 => Just(2u8), 2 => Just(4u8), 2 => (1u8..6).prop_map(|n| 2 * n), 1 => 1u8..10, 1 => Just(64u8)], any::<bool>()).prop_map(|(at, n, forward)| Move::Boundary { at, n, forward }),
             1 => any::<u16>().prop_map(|at| Move::Drop { at }),
             1 => (0u8..ALL_KEYS.len() as u8).prop_flat_map(move |key| part_value(key, p1.clone()).prop_map(move |value| Move::Add { key, value })),
             2 => (any::<u16>(), any::<u16>()).prop_map(|(a, b)| Move::Swap { a, b }),
             2 => (any::<u16>(), 0u8..ALL_KEYS.len() as u8).prop_map(|(at, key)| Move::Rekey { at, key }),
             2 => any::<u16>().prop_map(|at| Move::Merge { at }),
-            2 => (any::<u16>(), prop_oneof![Just(2u8), 1u8..20, Just(64u8)], 0u8..ALL_KEYS.len() as u8).prop_map(|(at, n, key)| Move::Split { at, n, key }),
+            2 => (any::<u16>(), prop_oneof![3 => Just(2u8), 3 => (1u8..12).prop_map(|n| 2 * n), 1 => 1u8..20, 1 => Just(64u8)], 0u8..ALL_KEYS.len() as u8).prop_map(|(at, n, key)| Move::Split { at, n, key }),
             1 => (any::<u16>(), 0u8..ALL_KEYS.len() as u8).prop_flat_map(move |(at, key)| part_value(key, p2.clone()).prop_map(move |value| Move::Replace { at, value })),
         ],
     )
@@ -757,7 +760,12 @@ fn msg_case(c: &MsgCase) -> Report {
                 rep.discard("needs two parts");
                 return rep;
             }
-            let (i, j) = (pick_index(*a, n_parts), pick_index(*b, n_parts));
+            let i = pick_index(*a, n_parts);
+            // prefer a partner of the same value grammar (a swap across grammars leaves the honest domain)
+            let same: Vec<usize> = (0..n_parts).filter(|j| *j != i && grammar_of(keys[*j]) == grammar_of(keys[i])).collect();
+            let others: Vec<usize> = (0..n_parts).filter(|j| *j != i).collect();
+            let cand = if same.is_empty() { &others } else { &same };
+            let j = cand[pick_index(*b, cand.len())];
             let (va, vb) = (m1[&keys[i]].clone(), m1[&keys[j]].clone());
             m2.insert(keys[i], vb);
             m2.insert(keys[j], va);
@@ -769,7 +777,8 @@ fn msg_case(c: &MsgCase) -> Report {
             }
             let k = keys[pick_index(*at, n_parts)];
             let v = m2.remove(&k).unwrap();
-            m2.insert(*key, v);
+            let targets: Vec<u8> = (0..ALL_KEYS.len() as u8).filter(|t| *t != k && grammar_of(*t) == grammar_of(k)).collect();
+            m2.insert(targets[*key as usize % targets.len()], v);
         }
         Move::Merge { at } => {
             if n_parts < 2 {
@@ -790,7 +799,10 @@ fn msg_case(c: &MsgCase) -> Report {
             let n = (*n as usize).min(v.len().saturating_sub(1));
             let tail = v.split_off(v.len() - n);
             m2.insert(k, v);
-            m2.insert(*key, tail);
+            let fresh: Vec<u8> = (0..ALL_KEYS.len() as u8).filter(|t| !m1.contains_key(t) && grammar_of(*t) == grammar_of(k)).collect();
+            let any_same: Vec<u8> = (0..ALL_KEYS.len() as u8).filter(|t| *t != k && grammar_of(*t) == grammar_of(k)).collect();
+            let cand = if fresh.is_empty() { &any_same } else { &fresh };
+            m2.insert(cand[*key as usize % cand.len()], tail);
         }
         Move::Replace { at, value } => {
             if n_parts == 0 {
@@ -1058,7 +1070,16 @@ fn verdict_class(v: &str) -> String {
     v.split(':').take(2).collect::<Vec<_>>().join(":").chars().take(60).collect()
 }
 
-fn wire_case(c: &WireCase) -> Report {
+fn wire_case(c: &WireCase, known_phi_open: bool) -> Report {
+    let t_dbg = std::time::Instant::now();
+    let r = wire_case_inner(c, known_phi_open);
+    if std::env::var("VERIF_DEBUG").is_ok() && t_dbg.elapsed().as_millis() > 100 {
+        eprintln!("SLOW {} ms labels={:?} case={:.600}", t_dbg.elapsed().as_millis(), r.labels, format!("{:?}", c.src));
+    }
+    r
+}
+
+fn wire_case_inner(c: &WireCase, known_phi_open: bool) -> Report {
     let mut rep = Report::new();
     let Some(built) = chain_cached(&c.ctx) else {
         rep.discard("context chain does not build");
@@ -1148,8 +1169,48 @@ fn wire_case(c: &WireCase) -> Report {
                 return rep;
             }
         };
+        let mut cert2 = cert2;
         if cert2.hash != cert0.hash {
             rep.violation(format!("roundtrip:stored-hash-changed:{path}"), format!("hash field {} -> {}", cert0.hash, cert2.hash));
+        }
+        let (phi0, phi2) = (cert0.metadata.protocol_parameters.phi_f, cert2.metadata.protocol_parameters.phi_f);
+        if phi0.to_bits() != phi2.to_bits() {
+            // The statement compares protocol parameters at the fixed-point precision, so a changed f64 alone is only
+            // recorded; it is a finding when it has an effect the statement names: the hashed fixed-point value changes,
+            // or the verifier's verdict changes (and comes back when the original float is restored).
+            rep.label(format!("phi-bits-changed:{path}"));
+            let effect = if phi_fixed(phi0) != phi_fixed(phi2) {
+                Some("the hashed fixed-point value (so the certificate hash) changes".to_string())
+            } else {
+                let unpatched = real_verdict(&cert2, &prev, gv);
+                let mut patched = cert2.clone();
+                patched.metadata.protocol_parameters.phi_f = phi0;
+                if unpatched != verdict0 && real_verdict(&patched, &prev, gv) == verdict0 {
+                    Some(format!("the verifier verdict changes from `{verdict0}` to `{unpatched}`"))
+                } else {
+                    None
+                }
+            };
+            if let Some(effect) = effect {
+                rep.label(format!("phi-change-visible:{path}"));
+                if known_phi_open {
+                    rep.excluded_known(KEY_PHI);
+                } else {
+                    rep.violation(
+                        KEY_PHI,
+                        format!(
+                            "phi_f={phi0:e} (bits {:#x}, fixed {:?}) came back from the {path} JSON round trip as {phi2:e} (bits {:#x}, fixed {:?}): {effect}; reser={:?}",
+                            phi0.to_bits(),
+                            phi_fixed(phi0),
+                            phi2.to_bits(),
+                            phi_fixed(phi2),
+                            c.reser
+                        ),
+                    );
+                }
+            }
+            // keep exploring the other clauses around the finding
+            cert2.metadata.protocol_parameters.phi_f = phi0;
         }
         let hash2 = cert2.try_compute_hash().unwrap_or_else(|e| format!("error {e}"));
         if hash2 != hash0 {
@@ -1244,6 +1305,7 @@ pub fn run(args: &Args) -> i32 {
         .require_label("src:free");
     let t = check.tier;
     let known_open = [check.has_open_known(KEY_MSD_CSD), check.has_open_known(KEY_CTX_CDB)];
+    let known_phi_open = check.has_open_known(KEY_PHI);
 
     // per-run pool of honest chains: real keys / signatures and verification contexts
     let pool_chains: Vec<ChainSpec> = if check.is_replay() { vec![] } else { chain_pool(check.seed, t.pick(10, 40) as usize, 3, check.threads) };
@@ -1279,14 +1341,14 @@ pub fn run(args: &Args) -> i32 {
         let pool = pool.clone();
         check.section(
             "single-field",
-            move || (cert_spec_strategy(pool.clone()), change_strategy(pool.clone())).prop_map(|(base, change)| FieldCase { base, change }),
-            t.pick(6000, 300_000),
+            move || (cert_spec_strategy(pool.clone(), false), change_strategy(pool.clone(), false)).prop_map(|(base, change)| FieldCase { base, change }),
+            t.pick(24_000, 600_000),
             |c: &FieldCase| field_case(c, &known_open),
         );
     }
     {
         let pool = pool.clone();
-        check.section("protocol-message-pairs", move || msg_case_strategy(pool.clone()), t.pick(4000, 200_000), msg_case);
+        check.section("protocol-message-pairs", move || msg_case_strategy(pool.clone()), t.pick(12_000, 300_000), msg_case);
     }
     {
         let pool = pool.clone();
@@ -1299,16 +1361,16 @@ pub fn run(args: &Args) -> i32 {
                     prop::sample::select(chains.clone()),
                     prop_oneof![
                         2 => any::<u16>().prop_map(|idx| Src::Chain { idx, change: None, rehash: false }),
-                        2 => (any::<u16>(), change_strategy(pool.clone()), any::<bool>()).prop_map(|(idx, ch, rehash)| Src::Chain { idx, change: Some(ch), rehash }),
-                        3 => (cert_spec_strategy(pool.clone()), prop::bool::weighted(0.7)).prop_map(|(spec, rehash)| Src::Free { spec, rehash }),
+                        2 => (any::<u16>(), change_strategy(pool.clone(), true), any::<bool>()).prop_map(|(idx, ch, rehash)| Src::Chain { idx, change: Some(ch), rehash }),
+                        3 => (cert_spec_strategy(pool.clone(), true), prop::bool::weighted(0.7)).prop_map(|(spec, rehash)| Src::Free { spec, rehash }),
                     ],
                     any::<u16>(),
                     reser_strategy(),
                 )
                     .prop_map(|(ctx, src, prev, reser)| WireCase { ctx, src, prev, reser })
             },
-            t.pick(3000, 100_000),
-            wire_case,
+            t.pick(8000, 200_000),
+            |c: &WireCase| wire_case(c, known_phi_open),
         );
     }
 
@@ -1323,5 +1385,20 @@ pub fn run(args: &Args) -> i32 {
             witness_pair(EntitySpec::Ctx(7, 4242), EntitySpec::Cdb(7, 4242), &m2, &a2)
         });
     }
+    if !check.is_replay() {
+        check.witness(KEY_PHI, "a phi_f at a fixed-point rounding tie does not survive serde_json (certificate hash changes over the wire)", witness_phi);
+    }
     check.finish()
+}
+
+/// scan fixed-point ties (2j+1)/2^25: does the JSON round trip of the certificate message part change the hashed value?
+fn witness_phi() -> bool {
+    use mithril_common::entities::ProtocolParameters;
+    (0u32..20_000).any(|i| {
+        let j = 7_950_000 + i;
+        let phi = (2.0 * j as f64 + 1.0) / 33_554_432.0;
+        let p = ProtocolParameters::new(5, 100, phi);
+        let q: ProtocolParameters = serde_json::from_str(&serde_json::to_string(&p).expect("json")).expect("parse");
+        p.compute_hash() != q.compute_hash()
+    })
 }
